@@ -11,7 +11,8 @@ out.append("## 8. Defects found in gamedig/rust-gamedig (from known_findings.jso
 out.append("Every entry was first reproduced by its check against the real code (replay file in `replays/<ID>/`), then either repaired by a minimal unguarded `fix:` commit in /repo or recorded as an open known finding. `fixed` entries suppress nothing; their replays run in the regression tier of every quick check.\n")
 out.append("| Property | Status | Commit | What failed |\n|---|---|---|---|")
 for f in k:
-    out.append(f"| {f['property']} | {f['status']} | {f.get('commit','') or ''} | {f['what_fails'].replace('|','\\|')} |")
+    wf=f['what_fails'].replace('|','/')
+    out.append(f"| {f['property']} | {f['status']} | {f.get('commit','') or ''} | {wf} |")
 out.append("")
 m=json.load(open('/verif/mutants/mutants.json'))
 out.append("## 10. Which checks catch which changes\n")
